@@ -45,6 +45,27 @@ pub broadcast axiom fn ax_cow_deref_str<'a>(c: &std::borrow::Cow<'a, str>)
 
 //@ include prelude/utf8.rs
 
+/// stripping a concatenated prefix is stripping its two parts one after the other (so that an equivalent way of writing the
+/// code - `strip_prefix(fixed + "_")` - verifies as well)
+pub broadcast proof fn lemma_strip_concat(s: Seq<char>, a: Seq<char>, b: Seq<char>)
+    ensures #[trigger] strip_prefix_spec(s, a + b) == (match strip_prefix_spec(s, a) { Some(r) => strip_prefix_spec(r, b), None => None }),
+{
+    let ab = a + b;
+    if is_prefix_chars(ab, s) {
+        assert forall|i: int| 0 <= i < a.len() implies a[i] == s[i] by { assert(ab[i] == a[i]); }
+        let r = s.subrange(a.len() as int, s.len() as int);
+        assert forall|i: int| 0 <= i < b.len() implies b[i] == r[i] by { assert(ab[a.len() + i] == b[i]); }
+        assert(s.subrange(ab.len() as int, s.len() as int) =~= r.subrange(b.len() as int, r.len() as int));
+    } else if is_prefix_chars(a, s) {
+        let r = s.subrange(a.len() as int, s.len() as int);
+        if is_prefix_chars(b, r) {
+            assert forall|i: int| 0 <= i < ab.len() implies ab[i] == s[i] by {
+                if i < a.len() { assert(ab[i] == a[i]); } else { assert(ab[i] == b[i - a.len()]); assert(r[i - a.len()] == s[i]); }
+            }
+        }
+    }
+}
+
 pub mod infix_filter {
     use super::*;
     //@ opaque src/writers/file_log_writer/infix_filter.rs enum InfixFilter
@@ -62,7 +83,7 @@ pub mod file_spec {
     use super::*;
     use super::infix_filter::{InfixFilter, accepts};
     use std::path::{Path, PathBuf};
-    broadcast use group_pat_seq, ax_cow_deref_str, lemma_first_pos;
+    broadcast use group_pat_seq, ax_cow_deref_str, lemma_first_pos, lemma_strip_concat;
 
     /// the text before the first '.', or all of it
     pub open spec fn upto_dot(s: Seq<char>) -> Seq<char> { s.subrange(0, first_pos(s, '.')) }
@@ -154,13 +175,18 @@ pub mod file_spec {
             stem_text(pathbuf_path(*path)) is Some,
         ensures
             r == stem_in_family(fixed_name_part@, stem_text(pathbuf_path(*path))->Some_0, infix_filter), //@label filter_files.stem.post C14,C07,C06,C16,C01
+        {
+            // (wrapper, not copied code) the separator as a string literal is the same text as the character
+            proof { reveal_strlit("_"); assert("_"@ =~= seq!['_']); }
     //@ span src/parameters/file_spec.rs impl FileSpec / fn filter_files
     //@   blocknth 2/2 .filter(|path|
     //@   rename stem_matches
     //@   rule R25 *
     //@   rule R28 *
+    //@   rule R41 *
     //@   closure ~rest.strip_prefix('_') ## sig |rest: &str| -> (r: Option<&str>)
     //@   closure ~rest.strip_prefix('_') ## ens opt_str_view(r) == strip_prefix_spec(rest@, seq!['_'])
+        }
 }
 }
 fn main() {}
